@@ -153,8 +153,9 @@ Binds(S) == LET I == {p[1] : p \in S} IN
             {b \in [I -> 0..(MaxDim - 1)] : \A p \in S : b[p[1]] < p[2]}
 At(n, e, b, c) == n.val[e][[k \in 1..Len(n.fi) |-> b[n.fi[k][1]]] \o c]
 MkTab(fi, sh, F(_, _)) ==
-  [t \in Tup(FiDims(fi) \o sh) |->
-     F([i \in FiIdx(fi) |-> t[FiPos(fi, i)]], SubSeq(t, Len(fi) + 1, Len(t)))]
+  IF fi = << >> /\ sh = << >> THEN (<< >> :> F(<< >>, << >>))     \* a true scalar: one entry
+  ELSE [t \in Tup(FiDims(fi) \o sh) |->
+          F([i \in FiIdx(fi) |-> t[FiPos(fi, i)]], SubSeq(t, Len(fi) + 1, Len(t)))]
 CSumSet(S, F(_)) == FoldSet(LAMBDA x, acc : CAdd(F(x), acc), C0, S)
 
 BoolOps == {"lt", "gt", "le", "ge", "eq", "ne"}
@@ -339,7 +340,7 @@ DoRestrict(a) == LET x == store[a] IN
   /\ Push(<<a>>, [x EXCEPT !.op = "restrict", !.args = <<a>>, !.mi = << >>,
                     !.arc = H_linear_operator(x.arc), !.ari = H_linear_operator(x.ari)])
 DoVariable(a) == LET x == store[a] IN
-  /\ IsVal(x) /\ x.op # "variable"
+  /\ IsVal(x) /\ x.op # "variable" /\ x.fi = << >>     \* "Variable cannot wrap an expression with free indices"
   /\ Push(<<a>>, [x EXCEPT !.op = "variable", !.args = <<a>>, !.mi = << >>,
                     !.arc = H_variable(x.arc, MI), !.ari = H_variable(x.ari, MI)])
 
